@@ -195,9 +195,14 @@ fn session_reexecuted_writer_is_no_overlap() { prog_generated(); history_td(0, 4
 fn session_cyclic_requires_abort() {
   unsafe { PROG = [[E; NINS]; NTASK]; PROG[0] = [Ins::Req(1, 0), E, E, E]; PROG[1] = [Ins::Req(2, 1), E, E, E]; PROG[2] = [Ins::Req(0, 0), E, E, E]; PROG[3] = [Ins::Req(3, 0), E, E, E]; }
   let mut pie = fresh();
-  split(2, |k| {
+  split(3, |k| {
     exec_reset();
-    if k == 0 { root_require(&mut pie, 0); } else { root_require(&mut pie, 3); }
+    if k == 2 {
+      // cycle P0 -> P1 -> P2 -> P0 where P1 first requires the generator P3 and reads what it wrote (a hidden-dependency
+      // check, i.e. a reachability query, happens between the reservations)
+      unsafe { PROG[1] = [Ins::Req(3, 1), Ins::Read(0, M_EXACT), Ins::Req(2, 1), E]; PROG[3] = [Ins::Set(3), Ins::Write(0, M_EXACT, 0), E, E]; }
+    }
+    if k == 1 { root_require(&mut pie, 3); } else { root_require(&mut pie, 0); }
     assert!(false, "MUST-ABORT: a cyclic require returned");
   });
   ::std::mem::forget(pie);
@@ -268,6 +273,26 @@ fn session_event_stream_of_leaf_builds() {
       assert!(r.e[2].a[3] == 1, "C17 inconsistency reported in the check end event");
       assert!(r.e[6].a[1] == 0x1000 | o2 as u16 && r.e[7].a[3] == 0x1000 | o2 as u16, "C17 execute end / require end carry the new output");
     }
+  });
+  ::std::mem::forget(pie);
+}
+
+/// Two roots sharing a dependency, built in separate sessions: P0 and P1 both require P2 (reads Cell1). After a change, P0 is
+/// rebuilt first (which re-executes P2), then P1 in a later session must still notice that P2's output changed.
+//@h props=C01,C02:t tier=quick unwind=14 stubs=sort,boxslice timeout=1500 fieldsens=1024
+fn session_td_two_roots_share_a_dependency() {
+  unsafe { PROG = [[E; NINS]; NTASK]; PROG[0] = [Ins::Req(2, 0), Ins::Read(0, M_EXACT), E, E]; PROG[1] = [Ins::Req(2, 0), Ins::Set(0), Ins::Req(2, 0), E]; PROG[2] = [Ins::Read(1, M_EXACT), E, E, E]; }
+  let mut pie = fresh();
+  let mut cells = INIT;
+  td_build(&mut pie, 0, &mut cells, false, true);
+  td_build(&mut pie, 1, &mut cells, false, true);
+  split(3, |ch| {
+    if let Some((c, v)) = change(match ch { 0 => 0, 1 => 2, _ => 3 }) { set_cell(&mut pie, c, v); cells[c] = v; }
+    td_build(&mut pie, 0, &mut cells, ch == 0, true);
+    let n0 = exec_count(2);
+    td_build(&mut pie, 1, &mut cells, ch == 0, true);
+    assert!(exec_count(2) == 0, "C02 the shared dependency was already made up to date by the first root's build");
+    assert!(exec_count(1) == if ch == 0 { 0 } else { 1 }, "C01/C02 the second root notices that its dependency's output changed in an EARLIER session");
   });
   ::std::mem::forget(pie);
 }
